@@ -90,6 +90,9 @@ def aggregate(outdir):
                 crashes.append(j)
             elif t == "aborted":
                 aborted.append(j.get("reason", "aborted"))
+    mj = os.path.join(outdir, "merged.json")
+    if os.path.exists(mj):
+        dsum += json.load(open(mj)).get("distinct_nontrivial", 0)
     return dict(evaluations=ev, classes=classes, samples=samples, distinct=dsum + len(distinct), failures=failures,
                 crashes=crashes, aborted=aborted, nsummaries=nsummaries)
 
